@@ -36,6 +36,9 @@ pub const STRUCT_REPRS: &[Reprs] = &[
     &[&["u8", "align2"]],
     &[&["align2", "align4"]],
     &[&["align1"], &["align1"]],
+    &[&["align1"], &["align2"]],
+    &[&["align2"], &["align1"]],
+    &[&["C", "align1"], &["align1", "align2"]],
     &[&["packed", "packed2"]],
     &[&["packed"], &["packed2"]],
     &[&["packed"], &["packed1"]],
@@ -68,6 +71,9 @@ pub const ENUM_REPRS: &[Reprs] = &[
     &[&["u8", "u8"]],
     &[&["u8"], &["u8"]],
     &[&["u8", "align1", "align1"]],
+    &[&["u8"], &["align1"]],
+    &[&["u8", "align1"], &["align2"]],
+    &[&["align2"], &["u8", "align1"]],
 ];
 
 const GENERIC_REPRS: &[Reprs] = &[
@@ -322,6 +328,10 @@ pub fn documented() -> Vec<(Decl, bool)> {
         (mk(Mac::ZcSkip, Kind::Struct, false, &[], v(&["u8", "bool"]), vec![], vec![]), true),
         // "Works with structs and enums"
         (mk(Mac::Zc, Kind::Enum, false, &[&["u8"]], vec![], vv(&[&[], &[]]), vec![]), true),
+        // proc lib.rs: `#[unsized_type] struct MyStruct { sized_field: u64, #[unsized_start] items: List<u8> }`
+        (mk(Mac::Unsized, Kind::Struct, false, &[], v(&["u64"]), vec![], v(&["list"])), true),
+        // proc lib.rs: `MyAccount { sized_field: u64, another_sized_field: bool, #[unsized_start] bytes: List<u8>, map: Map<..> }`
+        (mk(Mac::Unsized, Kind::Struct, false, &[], v(&["u64", "bool"]), vec![], v(&["list", "list"])), true),
         // unsize/mod.rs doctests
         (mk(Mac::Unsized, Kind::Struct, false, &[], v(&["u8"]), vec![], v(&["rem"])), true),
         (mk(Mac::Unsized, Kind::Struct, false, &[], v(&["unit"]), vec![], v(&["list"])), false),
